@@ -246,9 +246,9 @@ def jobs(tier):
             if strict and (n, m) == (3, 3):
                 continue        # 3x3 with strict comparisons does not finish within the solver limit; 2x3 is the strict bound
             js.append(job_match_notes(n, m, 'onsets', strict, None))
-            for ratio in ((0.25,) if q else (0.2, 0.5)):
+            for ratio in ((0.25,) if q else (0.25, 0.5)):
                 js.append(job_match_notes(n, m, 'offsets', strict, ratio))
-            for ratio in ((None, 0.25) if q else (None, 0.2, 0.5)):
+            for ratio in ((None, 0.25) if q else (None, 0.25, 0.5)):
                 js.append(job_match_notes(n, m, 'notes', strict, ratio))
     for (n, m) in ([(2, 2)] if q else [(2, 2), (3, 3)]):
         js.append(job_mp_tp(n, m, False))
